@@ -106,7 +106,7 @@ struct Cx<'tcx> {
 impl<'tcx> Cx<'tcx> {
     fn path(&self, d: DefId) -> String {
         let tcx = self.tcx;
-        ty::print::with_no_trimmed_paths!(ty::print::with_resolve_crate_name!(tcx.def_path_str(d)))
+        ty::print::with_no_visible_paths!(ty::print::with_no_trimmed_paths!(ty::print::with_resolve_crate_name!(tcx.def_path_str(d))))
     }
 
     fn span(&self, sp: Span, o: &mut Obj) {
@@ -128,7 +128,7 @@ impl<'tcx> Cx<'tcx> {
     }
 
     fn ty_str(&self, t: Ty<'tcx>) -> String {
-        ty::print::with_no_trimmed_paths!(ty::print::with_resolve_crate_name!(format!("{}", t)))
+        ty::print::with_no_visible_paths!(ty::print::with_no_trimmed_paths!(ty::print::with_resolve_crate_name!(format!("{}", t))))
     }
 
     // structured type tree
@@ -364,14 +364,15 @@ impl<'tcx> Cx<'tcx> {
                 match c.const_ {
                     MirConst::Unevaluated(u, _) => {
                         o.s("item", &self.path(u.def));
-                        if u.promoted.is_some() {
+                        if let Some(pi) = u.promoted {
                             o.b("promoted", true);
+                            o.n("promoted_idx", pi.as_u32() as i128);
                         }
                     }
                     _ => {}
                 }
                 self.scalar_const(&c.const_, owner, &mut o);
-                o.s("s", &ty::print::with_no_trimmed_paths!(format!("{}", c.const_)));
+                o.s("s", &ty::print::with_no_visible_paths!(ty::print::with_no_trimmed_paths!(format!("{}", c.const_))));
             }
             #[allow(unreachable_patterns)]
             _ => {
@@ -611,7 +612,7 @@ impl<'tcx> Cx<'tcx> {
                 if let Some(tr) = tcx.impl_opt_trait_ref(imp) {
                     let tr = tr.instantiate_identity().skip_norm_wip();
                     o.s("impl_trait", &self.path(tr.def_id));
-                    o.s("impl_trait_full", &ty::print::with_no_trimmed_paths!(format!("{}", tr.print_only_trait_path())));
+                    o.s("impl_trait_full", &ty::print::with_no_visible_paths!(ty::print::with_no_trimmed_paths!(format!("{}", tr.print_only_trait_path()))));
                 }
                 o.s("name", tcx.item_name(owner).as_str());
                 o.b("auto_derived", tcx.is_automatically_derived(imp));
@@ -886,6 +887,13 @@ impl rustc_driver::Callbacks for Cb {
                         _ => "closure",
                     };
                     bodies.push(cx.body(did, body, k));
+                    let proms = tcx.promoted_mir(did.to_def_id());
+                    for (pi, pb) in proms.iter_enumerated() {
+                        let mut pj = cx.body(did, pb, "promoted");
+                        // tag with the promoted index: insert after the opening brace
+                        pj.insert_str(1, &format!("\"promoted_idx\":{},", pi.as_u32()));
+                        bodies.push(pj);
+                    }
                 }
                 DefKind::Const { .. } | DefKind::AssocConst { .. } | DefKind::Static { .. } => {
                     let mut o = Obj::new();
@@ -955,7 +963,7 @@ impl rustc_driver::Callbacks for Cb {
                     if let Some(tr) = tcx.impl_opt_trait_ref(did) {
                         let tr = tr.instantiate_identity().skip_norm_wip();
                         o.s("trait", &cx.path(tr.def_id));
-                        o.s("trait_full", &ty::print::with_no_trimmed_paths!(format!("{}", tr.print_only_trait_path())));
+                        o.s("trait_full", &ty::print::with_no_visible_paths!(ty::print::with_no_trimmed_paths!(format!("{}", tr.print_only_trait_path()))));
                     }
                 }
                 o.b("auto_derived", tcx.is_automatically_derived(did));
